@@ -276,7 +276,7 @@ fn replay_pairs<P: PType>(rp: &Value) -> Option<Vec<crate::viol::Viol>> {
 
 fn pstate_of<S: Side<P>, P: PType>(uni: &Universe, hist: &[Op]) -> Option<PState<S>> {
     let st = rebuild::<S>(uni, hist, KeyOpts { reps: false, layout: false, no_free: true })?;
-    let roots: Vec<GK> = uni.queries.iter().copied().filter(|q| crate::ops::top_node_under(&st.walk, *q).is_some()).collect();
+    let roots: Vec<GK> = uni.queries.iter().copied().filter(|q| crate::ops::top_node_under(st.walk(), *q).is_some()).collect();
     Some(PState { sut: st.map, model: st.model, hist: hist.to_vec(), roots })
 }
 
